@@ -349,21 +349,47 @@ pub fn canon_stdin() {
         let mut i = 0;
         let mut bad = false;
         while i < toks.len() {
-            if toks[i] == "nl" && i + 3 < toks.len() {
-                let dec = unh(toks[i + 1]).unwrap_or_default();
-                let exp = if toks[i + 2] == "-" { String::new() } else { unh(toks[i + 2]).unwrap_or_default() };
+            if toks[i] == "nl" && i + 2 < toks.len() {
+                // `nl H(lexeme) U`: lexeme = decimal [ 'e' sign? exponent ]; evaluate as parse_number does:
+                // format!("{decimal}{exp}") with decimal and exponent printed through f64 Display
+                let lex = unh(toks[i + 1]).unwrap_or_default();
+                let (dec, exp) = match lex.find('e') {
+                    Some(k) => (lex[..k].to_string(), Some(lex[k + 1..].to_string())),
+                    None => (lex.clone(), None),
+                };
                 match dec.parse::<f64>() {
-                    Ok(d) => match format!("{d}{exp}").parse::<f64>() {
-                        Ok(x) => {
-                            res.push("n".into());
-                            res.push(flt(x));
-                            res.push(toks[i + 3].to_string());
+                    Ok(d) => {
+                        let txt = match exp {
+                            None => Some(format!("{d}")),
+                            Some(e) => {
+                                let (sign, digits) = if e.starts_with('+') || e.starts_with('-') {
+                                    (e[..1].to_string(), e[1..].to_string())
+                                } else {
+                                    (String::new(), e)
+                                };
+                                digits.parse::<f64>().ok().map(|x| format!("{d}e{sign}{x}"))
+                            }
+                        };
+                        match txt.and_then(|t| t.parse::<f64>().ok()) {
+                            Some(x) => {
+                                res.push("n".into());
+                                res.push(flt(x));
+                                res.push(toks[i + 2].to_string());
+                            }
+                            None => bad = true,
                         }
-                        Err(_) => bad = true,
-                    },
+                    }
                     Err(_) => bad = true,
                 }
-                i += 4;
+                i += 3;
+            } else if toks[i] == "Tl" && i + 1 < toks.len() {
+                // `Tl H(text)`: a timestamp token; chrono / chrono-tz (through the real reader) evaluate it
+                let text = unh(toks[i + 1]).unwrap_or_default();
+                match libhaystack::encoding::zinc::decode::from_str(&text) {
+                    Ok(v @ Value::DateTime(_)) => w_val(&v, &mut res),
+                    _ => bad = true,
+                }
+                i += 2;
             } else if toks[i] == "cl" && i + 2 < toks.len() {
                 let a = unh(toks[i + 1]).unwrap_or_default().parse::<f64>();
                 let b = unh(toks[i + 2]).unwrap_or_default().parse::<f64>();
